@@ -7,6 +7,7 @@ import (
 	"fmt"
 	"math/rand/v2"
 
+	"k8s.io/apimachinery/pkg/apis/meta/v1/unstructured"
 	"k8s.io/apimachinery/pkg/types"
 	"sigs.k8s.io/controller-runtime/pkg/client"
 	"sigs.k8s.io/controller-runtime/pkg/reconcile"
@@ -101,6 +102,19 @@ func controllerCase(gold *golden) func(r *rand.Rand, res *result) {
 		settle()
 		check("created", first)
 		fp += kit.JSON(first.X)
+		// 1b. a third party (backup/restore, manual edit) strips the CRDs' owner references: the
+		// controllers put the controller reference back
+		if g.p(0.5) {
+			third := w.Client("third-party")
+			for _, o := range w.ListObjs(sim.Key{Group: "apiextensions.k8s.io", Kind: "CustomResourceDefinition"}.GK()) {
+				uo := &unstructured.Unstructured{Object: o}
+				uo.SetOwnerReferences(nil)
+				_ = third.Update(bg, uo)
+			}
+			settle()
+			check("owner references stripped by a third party", first)
+			t.add("controller_owner_strips", 1)
+		}
 		// 2. versions and schemas edited in place (1-2 edits)
 		cur := first
 		for e, ne := 0, g.n(3); e < ne; e++ {
